@@ -61,7 +61,7 @@ NEED = {
     "system2": ["-sys", "-inact", "-kw"],
     "system3": ["-sys", "-kw", "-eq"],
     "config": ["-wide", "-tight", "-lfnt", "-crlf", "-gempty", "-gnone", "-args"],
-    "configsys": ["-ctoks", "-msfk", "-crlf", "fault-notacomment", "fault-unknownkey", "-empty"],
+    "configsys": ["-ctoks", "-msfk", "-crlf", "fault-notacomment", "fault-unknownkey", "-empty", "-allowed-alias"],
     "faults": ["fault-unknownkey", "fault-missingarrow", "fault-wrongarrow", "ok-"],
     "faults2": ["fault-unknownkey", "fault-missingarrow", "fault-wrongarrow", "-allowed-tuple", "-allowed-set",
                 "-allowed-dict", "-allowed-str"],
@@ -134,6 +134,15 @@ def judge_case(case, obs):
     bad = _lines_diff(obs["after_lines"], e["lines"])
     if bad:
         return ("copy", ["original-changed-with-copy"] + bad, {"lines": e["lines"]})
+    if obs["edit"] != e["edit"]:
+        return ("copy-after-edit", ["edit-keys"], {"edit": e["edit"]})
+    if not obs["edit_copy_eq"]:
+        return ("copy-after-edit", ["copy-not-equal"], {"edit_copy_eq": True})
+    if not obs["edit_str_eq"]:
+        return ("copy-after-edit", ["copy-prints-differently"], {"edit_str_eq": True})
+    bad = _lines_diff(obs["edit_lines"], e["edited"])
+    if bad:
+        return ("copy-after-edit", bad, {"lines": e["edited"]})
     bad = _lines_diff(obs["copy_over_lines"], e["copy_over"])
     if bad:
         return ("copy(param=...)", bad, {"lines": e["copy_over"]})
@@ -189,7 +198,7 @@ def _key(fn, what, fields, cfg, allowed, cls=None, empty=False):
 
 # ---------------------------------------------------------------- traces
 OBS_KEYS = ("doc", "klass", "raised", "lines", "copy_eq", "copy_lines", "substances", "copy_indep", "after_lines",
-            "copy_over_lines")
+            "copy_over_lines", "edit", "edit_lines", "edit_copy_eq", "edit_str_eq")
 OVERRIDE = {"neg": False, "digs": [7, 2, 5], "e": 0}     # ReactionText!OverrideParam (checked by TLC: copy-over clause)
 
 
@@ -242,7 +251,11 @@ def _judge_traces(ctx, seqs, labels):
     traces, keep = [], []
     for evs, label, (tr, obs, facts) in zip(seqs, labels, outs):
         if tr is None:
-            ctx.skip("unencodable-observation")
+            # the code returned something outside the vocabulary (non-string key, non-finite or complex
+            # coefficient / parameter ...): it equals no expectation
+            ctx.violation(_key(_fn(obs["klass"], facts["system"]), "read", ["unencodable"], obs["cfg"], obs["allowed"]),
+                          {"direction": "code->spec", "trace": evs, "text": "\n".join(obs["doc"]), "source": label,
+                           "observed": "an object outside the vocabulary", "expected": "reactions with string keys and finite numbers"})
             continue
         traces.append(tr)
         keep.append((evs, obs, facts, label))
